@@ -14,10 +14,13 @@ Definition grid_entry (base : Z) (K : nat) (n : Z) (i j : nat) : Z :=
   ((n / base ^ Z.of_nat (i * K + j)) mod base)%Z.
 Definition assignZ (g : bool) (K : nat) (Sc : nat -> nat -> Z) : list nat :=
   if g then greedy_assign Z.ltb K Sc else optimal_assign Z.ltb K Sc Z.add 0%Z.
-(* impl: one mapping per matrix start, start+stride, ... *)
-Definition check_assign_grid (g : bool) (K : nat) (base start stride : Z) (impl : list (list nat)) : bool * float :=
-  okR (eq_natmat (map (fun i => assignZ g K (grid_entry base K (start + stride * Z.of_nat i)%Z))
-                      (seq 0 (length impl))) impl).
+(* a mapping as one number: sum_k p[k] * K^k *)
+Definition perm_code (K : nat) (p : list nat) : Z :=
+  fold_right (fun d acc => (Z.of_nat d + Z.of_nat K * acc)%Z) 0%Z p.
+(* impl: the code of the implementation's mapping for matrix start, start+stride, ... *)
+Definition check_assign_grid (g : bool) (K : nat) (base start stride : Z) (impl : list Z) : bool * float :=
+  okR (eq_zlist (map (fun i => perm_code K (assignZ g K (grid_entry base K (start + stride * Z.of_nat i)%Z)))
+                     (seq 0 (length impl))) impl).
 
 (* ---- one binary64 matrix ---- *)
 Definition check_assign_float (g : bool) (K : nat) (M : list (list float)) (impl : list nat) : bool * float :=
